@@ -1,1 +1,764 @@
-"""(rules registered here)"""
+"""Grammar rules over the extracted state graphs: G-CHUNK, G-FRAME, G-PROGRESS, G-BOUND, G-REF, and the
+re-validation of the primitive summaries the consumption model relies on (G-PRIMS)."""
+import ast, struct, re
+
+from .core import ( rule, Result, AnalysisError, dotted, call_name, is_call_to, names_in, attrs_in, walk_no_nested,
+                    norm_text, dotted_in, stmt_of, pmatch, pfind, txt )
+from .fold import try_fold
+from .grammar import ( grammar_of, Node, Decide, Closure, ClassRef, Unknown, compose, reduce_path, default_context, FILES, dump )
+from . import spec
+
+try:
+    import re._parser as sre_parse		# 3.11+
+except ImportError:				# pragma: no cover
+    import sre_parse
+
+INF = float( 'inf' )
+
+
+def src_of( ctx, node_or_site ):
+    site = node_or_site.site if hasattr( node_or_site, 'site' ) else node_or_site
+    return ctx.src( FILES[site[0]] )
+
+
+class L:
+    """line-number carrier for reports about extracted nodes"""
+    def __init__( self, site ):
+        self.lineno = site[1]
+
+
+# ---------------------------------------------------------------------------------------- consumption model
+
+def regex_width( pattern ):
+    try:
+        lo, hi = sre_parse.parse( pattern ).getwidth()
+    except Exception:
+        return ( 0, INF )
+    return ( lo, INF if hi >= sre_parse.MAXREPEAT or hi >= 2**31 - 1 else hi )
+
+
+def repeat_range( node ):
+    r = node.kw.get( 'repeat' )
+    if r is None:
+        return ( 1, 1 )
+    if isinstance( r, bool ):
+        return ( int( r ), int( r ))
+    if isinstance( r, int ):
+        return ( r, r )
+    return ( 0, INF )					# data path or callable: any count
+
+
+def mul( a, b ):
+    def m( x, y ):
+        if x == 0 or y == 0:
+            return 0
+        return x * y
+    return ( m( a[0], b[0] ), m( a[1], b[1] ))
+
+
+def add( a, b ):
+    return ( a[0] + b[0], a[1] + b[1] )
+
+
+class Consumption:
+    """( min, max ) symbols consumed by entering a node (its own process + its sub-machine), memoised; and by paths through a sub-graph"""
+    def __init__( self, g ):
+        self.g = g
+        self.memo = {}
+        self.active = set()
+
+    def own( self, n ):
+        """symbols the node's own process() consumes on entry"""
+        return 1 if n.isa( 'state_input' ) else 0
+
+    def node( self, n ):
+        if n.id in self.memo:
+            return self.memo[n.id]
+        if n.id in self.active:
+            return ( 0, INF )
+        self.active.add( n.id )
+        try:
+            r = self._node( n )
+        finally:
+            self.active.discard( n.id )
+        self.memo[n.id] = r
+        return r
+
+    def _node( self, n ):
+        g = self.g
+        own = ( self.own( n ), self.own( n ))
+        if not n.is_dfa:
+            return own
+        rep = repeat_range( n )
+        mro = n.mro
+        if 'octets_base' in mro or 'words_base' in mro:
+            unit = 2 if 'words_base' in mro else 1
+            if 'octets_noop' in mro:
+                st = n.kw.get( 'octets_state' )
+                unit = 0 if ( st is None or ( isinstance( st, ClassRef ) and 'state_input' not in g.mro( st.name ))) else 1
+            elif 'octets_drop' in mro or 'octets' in mro or 'octets_struct' in mro:
+                st = n.kw.get( 'octets_state' )
+                if isinstance( st, ClassRef ) and 'state_input' not in g.mro( st.name ):
+                    unit = 0
+            if 'octets_struct' in mro:
+                fmt = n.kw.get( 'format' ) or g.class_const( n.cls, 'struct_format' )
+                if not isinstance( fmt, str ):
+                    raise AnalysisError( 'struct format of %r unknown' % n )
+                rep = ( struct.calcsize( fmt ), ) * 2
+            per = ( unit, unit )
+        elif 'regex' in mro:
+            pat = n.initial if isinstance( n.initial, str ) else n.kw.get( 'initial' )
+            if pat is None:
+                pat = r'\d+' if 'integer_base' in mro else '.*' if 'string_base' in mro else None
+            if not isinstance( pat, str ):
+                per = ( 0, INF )
+            else:
+                per = regex_width( pat )
+        else:
+            sub = n.sub_initial()
+            if sub is None:
+                per = ( 0, 0 )
+            else:
+                per = self.paths( sub )
+        tot = add( own, mul( per, rep ))
+        if n.kw.get( 'limit' ) is not None:
+            tot = ( 0 if not isinstance( n.kw['limit'], int ) else min( tot[0], n.kw['limit'] ), tot[1] )
+        return tot
+
+    def paths( self, start ):
+        """( min, max ) consumption over paths from `start` (inclusive) to any state where the sub-machine may stop
+        (a terminal state), following edges at this nesting level"""
+        g = self.g
+        nodes = g.nodes( start, into_sub=False )
+        ids = { n.id: n for n in nodes }
+        succ = { n.id: [ t for s, t, d in g.edges_of( n ) if t is not None ] for n in nodes }
+        # min: Dijkstra-ish relaxation (weights >= 0)
+        w = { n.id: self.node( n ) for n in nodes }
+        best = { start.id: w[start.id][0] }
+        changed = True
+        while changed:
+            changed = False
+            for n in nodes:
+                if n.id not in best:
+                    continue
+                for t in succ[n.id]:
+                    c = best[n.id] + w[t.id][0]
+                    if t.id not in best or c < best[t.id]:
+                        best[t.id] = c; changed = True
+        terms = [ n for n in nodes if n.terminal_flag ]
+        lo = min(( best[n.id] for n in terms if n.id in best ), default=None )
+        if lo is None:
+            lo = min( best.values() )
+        # max: INF if any cycle reachable, or any node with INF
+        hi = 0
+        cyc = self.has_cycle( start, succ )
+        if cyc or any( w[n.id][1] == INF for n in nodes ):
+            hi = INF
+        else:
+            memo = {}
+            def longest( i ):
+                if i in memo: return memo[i]
+                memo[i] = w[i][1] + max(( longest( t.id ) for t in succ[i] ), default=0 )
+                return memo[i]
+            hi = longest( start.id )
+        return ( lo, hi )
+
+    def has_cycle( self, start, succ ):
+        color = {}
+        def dfs( i ):
+            color[i] = 1
+            for t in succ[i]:
+                c = color.get( t.id )
+                if c == 1: return True
+                if c is None and dfs( t.id ): return True
+            color[i] = 2
+            return False
+        return dfs( start.id )
+
+
+def consumption_of( ctx ):
+    return ctx.cached( 'consumption', lambda: Consumption( grammar_of( ctx )))
+
+
+# ---------------------------------------------------------------------------------------- G-PRIMS: summaries re-validated
+
+@rule( 'G-PRIMS', props=( 'C02', 'C08', 'C10', 'C01' ), floor=8 )
+def g_prims( ctx ):
+    """the primitive summaries of the consumption model hold on the current source: base chains, one next( source ) per consuming process, none elsewhere"""
+    res = Result( 'G-PRIMS' )
+    g = grammar_of( ctx )
+    if g.unknowns:
+        raise AnalysisError( 'grammar extraction met %d unmodelled constructs, e.g. %s' % ( len( g.unknowns ), g.unknowns[0] ))
+    asrc = ctx.src( 'automata.py' ); psrc = ctx.src( 'server/enip/parser.py' )
+    chains = {
+        'state_input': [ 'state' ], 'state_drop': [ 'state_input' ], 'state_struct': [ 'state' ],
+        'dfa': [ 'dfa_base', 'state' ], 'dfa_input': [ 'dfa_base', 'state_input' ], 'dfa_drop': [ 'dfa_base', 'state_drop' ],
+        'dfa_post': [ 'dfa_base', 'state' ], 'regex': [ 'dfa' ], 'regex_bytes': [ 'regex' ],
+        'string_bytes': [ 'string_base', 'regex_bytes' ], 'string': [ 'string_base', 'regex' ],
+        'integer_bytes': [ 'integer_base', 'regex_bytes' ], 'integer_base': [ 'string_base' ],
+        'octets': [ 'octets_base', 'state' ], 'octets_struct': [ 'octets_base', 'state_struct' ], 'octets_noop': [ 'octets_base', 'state' ],
+        'octets_drop': [ 'octets_base', 'state' ], 'words': [ 'words_base', 'state' ], 'octets_base': [ 'dfa_base' ], 'words_base': [ 'dfa_base' ],
+        'TYPE': [ 'octets_struct' ],
+    }
+    for cname, want in chains.items():
+        if cname not in g.classes:
+            raise AnalysisError( 'primitive class %s vanished' % cname )
+        got = g.bases( cname )
+        s = ctx.src( FILES[g.classes[cname][1]] )
+        if got == want:
+            res.ok( s, g.classes[cname][0], 'class %s( %s )' % ( cname, ', '.join( got )), nontrivial=False )
+        else:
+            res.bad( s, g.classes[cname][0], 'class %s( %s )' % ( cname, ', '.join( got )), 'the consumption summary assumes bases %s' % want )
+    def nexts( fn ):
+        return [ c for c in ast.walk( fn ) if is_call_to( c, 'next' ) and c.args and dotted( c.args[0] ) == 'source' ]
+    for qn, want in (( 'state.process', 0 ), ( 'state_input.process', 1 ), ( 'state_drop.process', 1 )):
+        f = asrc.get( qn )
+        n = len( nexts( f ))
+        if n == want:
+            res.ok( asrc, f, '%s consumes %d symbol(s)' % ( qn, want ))
+        else:
+            res.bad( asrc, f, '%s calls next( source ) %d times' % ( qn, n ), 'the consumption summary assumes exactly %d' % want )
+    for qn in ( 'state.run', 'state.transition', 'dfa_base.delegate', 'state_struct.terminate', 'string_base.terminate', 'integer_base.terminate' ):
+        f = asrc.get( qn )
+        if nexts( f ):
+            res.bad( asrc, f, qn, 'framework method consumes input outside process()' )
+        else:
+            res.ok( asrc, f, '%s consumes no input itself' % qn, nontrivial=False )
+    # octets_base / words_base sub-machines
+    ob = psrc.get( 'octets_base.__init__' )
+    if pfind( ob, 'octets_state( name=octets_name, terminal=True, alphabet=octets_alphabet, encoder=octets_encoder, typecode=octets_typecode, extension=octets_extension )' ):
+        res.ok( psrc, ob, 'octets_base sub-machine = one terminal octets_state' )
+    else:
+        res.bad( psrc, ob, 'octets_base.__init__', 'sub-machine must be a single terminal octets_state instance (one symbol per repeat)' )
+    wb = psrc.get( 'words_base.__init__' )
+    w2 = [ c for c in ast.walk( wb ) if is_call_to( c, 'words_state' ) ]
+    terminal2 = [ c for c in w2 if any( k.arg == 'terminal' and try_fold( k.value ) is True for k in c.keywords ) ]
+    if len( w2 ) == 2 and len( terminal2 ) == 1:
+        res.ok( psrc, wb, 'words_base sub-machine = two words_state, second terminal' )
+    else:
+        res.bad( psrc, wb, 'words_base.__init__', 'sub-machine must be byte0 -> byte1( terminal )' )
+    for cname, st in (( 'octets_noop', 'state' ), ( 'octets_drop', 'state_drop' )):
+        f = psrc.get( cname + '.__init__' )
+        d = { a.arg: dotted( dv ) for a, dv in zip( reversed( f.args.args ), reversed( f.args.defaults )) }
+        if d.get( 'octets_state' ) == st:
+            res.ok( psrc, f, '%s default octets_state = %s' % ( cname, st ))
+        else:
+            res.bad( psrc, f, '%s octets_state default %s' % ( cname, d.get( 'octets_state' )), 'summary assumes %s' % st )
+    return res
+
+
+# ---------------------------------------------------------------------------------------- G-CHUNK / G-FRAME (C02, C20)
+
+STREAM_FED = ( 'enip_machine', 'tnet_machine' )
+
+
+def input_edges( g, n ):
+    return [ ( s, t, d ) for s, t, d in g.edges_of( n ) if s is not None ]
+
+
+def none_edges( g, n ):
+    return [ ( s, t, d ) for s, t, d in g.edges_of( n ) if s is None ]
+
+
+@rule( 'G-CHUNK', props=( 'C02', 'C20' ), floor=10 )
+def g_chunk( ctx ):
+    """stream-fed machines: no state's successor depends on whether the next byte has arrived yet (no mixed input/None edges, no peeking predicates)"""
+    res = Result( 'G-CHUNK' )
+    g = grammar_of( ctx )
+    for label in STREAM_FED:
+        m = g.machines.get( label )
+        if m is None:
+            if label == 'tnet_machine':
+                continue
+            raise AnalysisError( 'stream-fed machine %s not extracted' % label )
+        src = src_of( ctx, m )
+        for n in g.nodes( m ):
+            ie, ne = input_edges( g, n ), none_edges( g, n )
+            if ie and ne:
+                res.bad( src_of( ctx, n.site ), L( n.site ), '%s state %r has edges on %s and on None' % ( label, n.name, sorted( repr( s ) for s, _, _ in ie )),
+                         'with input pending the symbol edge is taken, with none yet received the None edge: framing would depend on how the stream is cut', func=label )
+            else:
+                res.ok( src_of( ctx, n.site ), L( n.site ), '%s state %r: %s' % ( label, n.name, 'input edges only' if ie else 'None edges only' if ne else 'no edges' ))
+            for s, t, d in g.edges_of( n ):
+                if d is not None and isinstance( d.predicate, Closure ):
+                    ptxt = d.predicate.source()
+                    if 'peek' in ptxt or '.sent' in ptxt:
+                        res.bad( src_of( ctx, d.site ), L( d.site ), 'decide %r predicate %s' % ( d.name, ptxt[:80] ),
+                                 'a transition that inspects the input source depends on what has arrived so far', func=label )
+    # run sites of the stream-fed machines: the engine is fed by chaining received blocks
+    return res
+
+
+@rule( 'G-FRAME', props=( 'C02', 'C01', 'C14' ), floor=8 )
+def g_frame( ctx ):
+    """encapsulation header = the 24-byte spec layout on its only path; the payload is exactly `length` octets; nothing else consumes at frame level"""
+    res = Result( 'G-FRAME' )
+    g = grammar_of( ctx )
+    cons = consumption_of( ctx )
+    m = g.machines.get( 'enip_machine' )
+    if m is None:
+        raise AnalysisError( 'enip_machine not extracted' )
+    src = src_of( ctx, m )
+    hdr = m.sub_initial()
+    if hdr is None or hdr.cls != 'enip_header':
+        res.bad( src_of( ctx, m.site ), L( m.site ), 'enip_machine initial = %r' % hdr, 'the frame must start with the encapsulation header' )
+        return res
+    first = hdr.sub_initial()
+    # the chain: empty --True--> command -> length -> session_handle -> status -> sender_context -> options( terminal )
+    chain = []
+    n = first
+    if n.cls != 'state' or not n.terminal_flag or cons.node( n ) != ( 0, 0 ):
+        res.bad( src_of( ctx, n.site ), L( n.site ), 'header initial state %r' % n, 'the header must start in a non-consuming terminal state (empty input = clean EOF)' )
+    seen = set()
+    while True:
+        seen.add( n.id )
+        nxt = [ ( s, t ) for s, t, d in g.edges_of( n ) ]
+        if not nxt:
+            break
+        if len( nxt ) != 1 or nxt[0][0] is not True or nxt[0][1] is None or nxt[0][1].id in seen:
+            res.bad( src_of( ctx, n.site ), L( n.site ), 'header state %r edges %s' % ( n.name, [ s for s, t in nxt ] ), 'the header is a single unconditional chain of fields' )
+            return res
+        n = nxt[0][1]
+        chain.append( n )
+    want = spec.ENCAP_HEADER
+    if len( chain ) != len( want ):
+        res.bad( src_of( ctx, hdr.site ), L( hdr.site ), 'header fields %s' % [ default_context( c ) for c in chain ], 'the encapsulation header has exactly %s' % [ w[0] for w in want ] )
+        return res
+    total = 0
+    for c, ( name, fmt ) in zip( chain, want ):
+        cctx = default_context( c )
+        lo, hi = cons.node( c )
+        if isinstance( fmt, int ):
+            ok = c.isa( 'octets' ) and ( lo, hi ) == ( fmt, fmt )
+            desc = 'octets( repeat=%s )' % c.kw.get( 'repeat' )
+        else:
+            cf = g.class_const( c.cls, 'struct_format' ) if c.isa( 'TYPE' ) else None
+            ok = cf is not None and spec.fmt_canon( cf ) == spec.fmt_canon( fmt )
+            desc = '%s %r' % ( c.cls, cf )
+        total += lo
+        if cctx != name:
+            res.bad( src_of( ctx, c.site ), L( c.site ), 'header field %r stored at %r' % ( c.name, cctx ), 'field %d of the header is %r' % ( chain.index( c ), name ))
+        elif not ok:
+            res.bad( src_of( ctx, c.site ), L( c.site ), 'header field %s parsed as %s' % ( name, desc ), 'spec: %s' % ( fmt if isinstance( fmt, str ) else '%d octets' % fmt ))
+        else:
+            res.ok( src_of( ctx, c.site ), L( c.site ), 'header field %s: %s' % ( name, desc ))
+    if total == 24 and chain[-1].terminal_flag and not any( c.terminal_flag for c in chain[:-1] ):
+        res.ok( src_of( ctx, hdr.site ), L( hdr.site ), 'header consumes exactly 24 octets and is terminal only after the last field' )
+    else:
+        res.bad( src_of( ctx, hdr.site ), L( hdr.site ), 'header consumes %s octets; terminal flags %s' % ( total, [ c.terminal_flag for c in chain ] ),
+                 'all-or-nothing 24 byte header: only the state after the last field may be terminal' )
+    # payload
+    out = g.edges_of( hdr )
+    if len( out ) != 1 or out[0][0] is not None or out[0][1] is None:
+        res.bad( src_of( ctx, hdr.site ), L( hdr.site ), 'edges after header: %s' % [ s for s, t, d in out ], 'after the header exactly one unconditional step to the payload' )
+        return res
+    pay = out[0][1]
+    rep = pay.kw.get( 'repeat' )
+    if not pay.isa( 'octets' ) or not isinstance( rep, str ):
+        res.bad( src_of( ctx, pay.site ), L( pay.site ), 'payload %r repeat=%r' % ( pay, rep ), 'the payload must be octets( repeat=<header length field> )' )
+        return res
+    # resolve the reference: payload context '' under machine context 'enip'; header fields live under the same context
+    pctx = compose( 'enip', default_context( pay ), rep )
+    target = reduce_path( pctx )
+    hpath = reduce_path( compose( compose( 'enip', default_context( hdr ), hdr.kw.get( 'extension' )), 'length', None ))
+    if target == hpath:
+        res.ok( src_of( ctx, pay.site ), L( pay.site ), 'payload = octets( repeat=%r ) -> %s (the header length field)' % ( rep, target ))
+    else:
+        res.bad( src_of( ctx, pay.site ), L( pay.site ), 'payload repeat=%r resolves to %r' % ( rep, target ), 'the payload length must be the header\'s length field %r' % hpath )
+    if pay.terminal_flag and not g.edges_of( pay ) and pay.kw.get( 'limit' ) is None:
+        res.ok( src_of( ctx, pay.site ), L( pay.site ), 'payload is terminal with no successor: a frame consumes exactly 24 + length octets' )
+    else:
+        res.bad( src_of( ctx, pay.site ), L( pay.site ), 'payload terminal=%s edges=%d' % ( pay.terminal_flag, len( g.edges_of( pay ))), 'nothing may be consumed after the payload within a frame' )
+    if m.kw.get( 'repeat' ) is None:
+        res.ok( src_of( ctx, m.site ), L( m.site ), 'one frame per run of enip_machine' )
+    else:
+        res.bad( src_of( ctx, m.site ), L( m.site ), 'enip_machine repeat=%r' % m.kw.get( 'repeat' ), 'a run of the frame machine must stop after one frame' )
+    return res
+
+
+# ---------------------------------------------------------------------------------------- G-PROGRESS (C08)
+
+def levels( g, root ):
+    """every sub-machine level of a machine: [ ( owner dfa node or None, initial node ) ]"""
+    out = [ ( None, root ) ]
+    for n in g.nodes( root ):
+        sub = n.sub_initial()
+        if sub is not None:
+            out.append(( n, sub ))
+    return out
+
+
+@rule( 'G-PROGRESS', props=( 'C08', ), floor=60 )
+def g_progress( ctx ):
+    """every extracted grammar: no cycle of non-consuming states; data-counted repeats consume per cycle; a terminal state is reachable"""
+    res = Result( 'G-PROGRESS' )
+    g = grammar_of( ctx )
+    cons = consumption_of( ctx )
+    done_levels = set()
+    for label, root in sorted( g.all_roots().items() ):
+        src = src_of( ctx, root )
+        for owner, init in levels( g, root ):
+            if init.id in done_levels:
+                continue
+            done_levels.add( init.id )
+            nodes = g.nodes( init, into_sub=False )
+            # epsilon-cycle: SCC over this level whose every node has min consumption 0 and where at least one edge of the cycle needs no input
+            idx = { n.id: n for n in nodes }
+            succ = { n.id: [ ( s, t ) for s, t, d in g.edges_of( n ) if t is not None and t.id in idx ] for n in nodes }
+            zero = { n.id for n in nodes if cons.node( n )[0] == 0 }
+            # search cycles within zero-consumption nodes
+            bad_cycle = None
+            color = {}
+            stack = []
+            def dfs( i ):
+                nonlocal bad_cycle
+                color[i] = 1; stack.append( i )
+                for s, t in succ[i]:
+                    if t.id not in zero:
+                        continue
+                    if color.get( t.id ) == 1:
+                        bad_cycle = stack[stack.index( t.id ):] + [ t.id ]
+                        return True
+                    if t.id not in color and dfs( t.id ):
+                        return True
+                color[i] = 2; stack.pop()
+                return False
+            for n in nodes:
+                if n.id in zero and n.id not in color:
+                    if dfs( n.id ):
+                        break
+            where = owner or init
+            if bad_cycle:
+                names = [ idx[i].name for i in bad_cycle ]
+                res.bad( src_of( ctx, idx[bad_cycle[0]].site ), L( idx[bad_cycle[0]].site ), '%s: cycle of non-consuming states %s' % ( label, ' -> '.join( map( str, names ))),
+                         'a loop that consumes no input can spin forever on hostile input (only the run-time stasis guard would stop it)', func=label )
+            else:
+                res.ok( src_of( ctx, where.site ), L( where.site ), '%s level %r: %d states, no non-consuming cycle' % ( label, ( owner.name if owner else 'root' ), len( nodes )),
+                        nontrivial=len( nodes ) > 1 )
+            # a data-counted repeat must consume >= 1 per cycle (a hostile count cannot buy free iterations)
+            if owner is not None and isinstance( owner.kw.get( 'repeat' ), str ) and not ( 'octets_base' in owner.mro or 'words_base' in owner.mro ):
+                lo, hi = cons.paths( init )
+                if lo < 1:
+                    res.bad( src_of( ctx, owner.site ), L( owner.site ), '%s: dfa %r repeat=%r whose sub-machine can complete consuming nothing' % ( label, owner.name, owner.kw['repeat'] ),
+                             'a hostile count field buys that many iterations without input', func=label )
+                else:
+                    res.ok( src_of( ctx, owner.site ), L( owner.site ), '%s: repeat=%r sub-machine consumes >= %d per cycle' % ( label, owner.kw['repeat'], lo ))
+            if owner is not None and isinstance( owner.kw.get( 'repeat' ), str ) and ( 'octets_noop' in owner.mro ):
+                res.bad( src_of( ctx, owner.site ), L( owner.site ), '%s: octets_noop repeat=%r' % ( label, owner.kw['repeat'] ), 'data-counted repetition of a non-consuming state', func=label )
+            # reachable terminal
+            if owner is not None and not any( n.terminal_flag for n in nodes ) and not ( owner is not None and ( 'octets_base' in owner.mro or 'words_base' in owner.mro or 'regex' in owner.mro )):
+                res.bad( src_of( ctx, where.site ), L( where.site ), '%s level %r has no terminal state' % ( label, owner.name if owner else 'root' ), 'the sub-machine can never accept: every message of this kind fails', func=label )
+    return res
+
+
+# ---------------------------------------------------------------------------------------- G-REF (C10, C20)
+
+def stores_value( n ):
+    """node kinds that store a parsed value at their context path"""
+    if n.cls.startswith( 'substate' ):
+        return False
+    return n.isa( 'state_struct' ) or n.isa( 'string_base' ) or n.isa( 'state_input' ) or n.isa( 'octets' ) or n.isa( 'words' ) \
+        or ( n.is_dfa and n.cls not in ( 'dfa', 'dfa_post', 'octets_noop', 'octets_drop' ) and not n.isa( 'octets_noop' ) and not n.isa( 'octets_drop' ))
+
+
+def analyse_refs( g, root, rootpath='' ):
+    """-> ( defs: path -> [ nodes ], refs: [ ( kind, resolved path, raw, node ) ] ) for a machine (context composition with '..' back-tracking)"""
+    defs, refs, seen = {}, [], set()
+    def define( p, n ):
+        defs.setdefault( reduce_path( p ), [] ).append( n )
+    def visit( n, path ):
+        if not isinstance( n, Node ) or ( n.id, path ) in seen:
+            return
+        seen.add(( n.id, path ))
+        ours = compose( path, default_context( n ), n.kw.get( 'extension' ) if isinstance( n.kw.get( 'extension' ), str ) else None )
+        if stores_value( n ):
+            define( ours, n )
+            if n.isa( 'octets' ) or n.isa( 'words' ) or n.isa( 'string_base' ) or n.isa( 'state_struct' ):
+                ext = n.kw.get( 'octets_extension' )
+                define( ours + ( ext if isinstance( ext, str ) else '.input' ), n )
+        for key in ( 'limit', 'repeat' ):
+            v = n.kw.get( key )
+            if isinstance( v, str ):
+                refs.append(( key, reduce_path( compose( path, default_context( n ), v )), v, n ))
+        sub = n.sub_initial()
+        if sub is not None and not ( 'octets_base' in n.mro or 'words_base' in n.mro ):
+            visit( sub, ours )
+        for k, t in n.edges:
+            if isinstance( t, Decide ):
+                s, d = t.kw.get( 'source' ), t.kw.get( 'destination' )
+                if t.cls == 'move_if':
+                    if isinstance( s, str ):
+                        refs.append(( 'move.source', reduce_path( path + s ), s, t ))
+                    if isinstance( d, str ) and ( t.kw.get( 'initializer' ) is not None or s is not None ):
+                        define( path + d, t )
+                if isinstance( t.state, Node ):
+                    visit( t.state, path )
+            elif isinstance( t, Node ):
+                visit( t, path )
+    visit( root, rootpath )
+    return defs, refs
+
+
+# free references of a machine (reaching above its root) and the run-site facts that discharge them
+FREE_REF_PROVIDERS = {
+    # machine label -> { free path : ( providing machine, its context path ) }
+    'CIP': { 'length': ( 'enip_machine', 'enip.length' ) },
+}
+
+
+def int_field( g, n ):
+    """node parses an integer (TYPE with an integer struct format, or integer_bytes)"""
+    if isinstance( n, Node ):
+        if n.isa( 'TYPE' ):
+            f = g.class_const( n.cls, 'struct_format' )
+            return isinstance( f, str ) and spec.fmt_canon( f )[1] not in 'fd'
+        if n.isa( 'integer_base' ):
+            return True
+        if n.isa( 'state_struct' ):
+            f = n.kw.get( 'format' ) or g.class_const( n.cls, 'struct_format' )
+            return isinstance( f, str ) and spec.fmt_canon( f )[1] not in 'fd'
+    return False
+
+
+@rule( 'G-REF', props=( 'C10', 'C20', 'C08' ), floor=30 )
+def g_ref( ctx ):
+    """every data-path reference in limit= / repeat= / move_if( source= ) resolves to a field this machine parses (an integer field for limit/repeat)"""
+    res = Result( 'G-REF' )
+    g = grammar_of( ctx )
+    n_refs = 0
+    seen_sites = set()
+    for label, root in sorted( g.all_roots().items() ):
+        src = src_of( ctx, root )
+        defs, refs = analyse_refs( g, root )
+        for kind, p, raw, n in refs:
+            n_refs += 1
+            key = ( n.site, kind, raw, p )
+            first = key not in seen_sites
+            seen_sites.add( key )
+            hit = defs.get( p )
+            prefix = [ d for d in defs if d.startswith( p + '.' ) ] if not hit else []
+            short = label.split( '/' )[-1]
+            if hit:
+                if kind in ( 'limit', 'repeat' ):
+                    if any( int_field( g, h ) for h in hit ) or any( isinstance( h, Decide ) for h in hit ):
+                        if first:
+                            res.ok( src_of( ctx, n.site ), L( n.site ), '%s=%r -> %s (integer field %s)' % ( kind, raw, p, hit[0].name ))
+                    else:
+                        res.bad( src_of( ctx, n.site ), L( n.site ), '%s: %s=%r resolves to %r, parsed by %s' % ( short, kind, raw, p, hit[0].cls ),
+                                 'a limit/repeat must name an integer field', func=label )
+                elif first:
+                    res.ok( src_of( ctx, n.site ), L( n.site ), 'move source %r -> %s' % ( raw, p ), nontrivial=False )
+            elif prefix and kind == 'move.source':
+                if first:
+                    res.ok( src_of( ctx, n.site ), L( n.site ), 'move source %r -> sub-tree %s.*' % ( raw, p ), nontrivial=False )
+            else:
+                free = FREE_REF_PROVIDERS.get( short, {} )
+                if p in free and kind in ( 'limit', 'repeat' ):
+                    prov, ppath = free[p]
+                    pm = g.machines.get( prov )
+                    pdefs, _ = analyse_refs( g, pm ) if pm is not None else ( {}, [] )
+                    if ppath in pdefs and any( int_field( g, h ) for h in pdefs[ppath] ):
+                        if first:
+                            res.ok( src_of( ctx, n.site ), L( n.site ), '%s=%r -> free reference %r provided by %s (%s)' % ( kind, raw, p, prov, ppath ))
+                        continue
+                res.bad( src_of( ctx, n.site ), L( n.site ), '%s: %s=%r resolves to %r' % ( short, kind, raw, p ),
+                         'no field of that name is parsed by this machine: data.get( path, 0 ) silently yields %s' % (
+                             'limit 0 / repeat 0' if kind != 'move.source' else 'nothing to move' ), func=label )
+    res.note( 'references examined (with repeats across machines): %d' % n_refs )
+    # run sites that must provide CIP's free reference: data= must be the artifact the frame machine filled
+    lsrc = ctx.src( 'server/enip/logix.py' )
+    pr = lsrc.get( 'process' )
+    runs = [ c for c in ast.walk( pr ) if isinstance( c, ast.Call ) and isinstance( c.func, ast.Attribute ) and c.func.attr == 'run' ]
+    ok = any( any( k.arg == 'data' and txt( k.value ) == 'data.request.enip' for k in c.keywords ) for c in runs )
+    if ok:
+        res.ok( lsrc, pr, 'logix.process runs the CIP machine on data.request.enip (filled by enip_machine: length, command)' )
+    else:
+        res.bad( lsrc, pr, 'ucmm.parser run site', 'the CIP command parsers are limited by ...length, which only exists when run on the frame artifact data.request.enip' )
+    return res
+
+
+# ---------------------------------------------------------------------------------------- G-BOUND (C08, C10)
+
+def unbounded_consumers( g, cons, root ):
+    """nodes (at any level of root) that may consume without a bound of their own: INF max consumption not due to a data-counted
+    repeat of a bounded unit, plus loops (cycles) at a level.  -> [ ( node, kind, chain of enclosing dfa nodes ) ]"""
+    out = []
+    def walk( init, chain ):
+        nodes = g.nodes( init, into_sub=False )
+        idx = { n.id: n for n in nodes }
+        succ = { n.id: [ t for s, t, d in g.edges_of( n ) if t is not None and t.id in idx ] for n in nodes }
+        # cycles at this level
+        color = {}; incycle = set()
+        def dfs( i, stack ):
+            color[i] = 1; stack.append( i )
+            for t in succ[i]:
+                if color.get( t.id ) == 1:
+                    incycle.update( stack[stack.index( t.id ):] )
+                elif t.id not in color:
+                    dfs( t.id, stack )
+            color[i] = 2; stack.pop()
+        dfs( init.id, [] )
+        if incycle:
+            heads = sorted( incycle )
+            out.append(( idx[heads[0]], 'loop over %s' % sorted( { idx[i].name for i in incycle } ), list( chain )))
+        for n in nodes:
+            if 'regex' in n.mro:
+                lo, hi = cons.node( n )
+                pat = regex_pattern( n )
+                if hi == INF and not self_delimiting( pat ):
+                    out.append(( n, 'string %r' % pat, list( chain )))
+                continue
+            if 'octets_base' in n.mro or 'words_base' in n.mro:
+                continue
+            sub = n.sub_initial()
+            if sub is not None:
+                walk( sub, chain + [ n ] )
+    walk( root, [] )
+    return out
+
+
+def regex_pattern( n ):
+    pat = n.initial if isinstance( n.initial, str ) else n.kw.get( 'initial' )
+    if not isinstance( pat, str ):
+        pat = r'\d+' if 'integer_base' in n.mro else '.*'
+    return pat
+
+
+def self_delimiting( pat ):
+    """an unbounded repetition that excludes at least one symbol stops by itself at that symbol; '.'/ANY repetitions do not"""
+    try:
+        tree = sre_parse.parse( pat )
+    except Exception:
+        return False
+    def unbounded_any( seq ):
+        for op, av in seq:
+            name = str( op )
+            if name in ( 'MAX_REPEAT', 'MIN_REPEAT' ):
+                lo, hi, sub = av
+                if hi >= sre_parse.MAXREPEAT:
+                    for sop, sav in sub:
+                        if str( sop ) == 'ANY':
+                            return True
+                        if str( sop ) == 'IN' and any( str( x[0] ) == 'NEGATE' for x in sav ) and len( sav ) == 1:
+                            return True
+                if unbounded_any( sub ):
+                    return True
+            elif name == 'SUBPATTERN':
+                if unbounded_any( av[-1] ):
+                    return True
+            elif name == 'BRANCH':
+                if any( unbounded_any( b ) for b in av[1] ):
+                    return True
+        return False
+    return not unbounded_any( tree )
+
+
+def bound_of( n, chain ):
+    """the innermost limit/repeat that bounds consumer n: its own limit, or a limit of an enclosing dfa"""
+    if n.kw.get( 'limit' ) is not None:
+        return n, n.kw['limit']
+    for d in reversed( chain ):
+        if d.kw.get( 'limit' ) is not None:
+            return d, d.kw['limit']
+    return None, None
+
+
+# the machines that are run directly on a received buffer (see R-LOCK-1's run sites); everything else is a component of these
+RUN_ROOTS = ( 'enip_machine', 'CIP', 'tnet_machine' )
+
+# consumers that are unbounded on purpose and are *not given* a limit, so the property (which speaks of parsers given a limit)
+# does not apply; one line of reason each
+EXEMPT_CONSUMERS = {
+    ( 'parser', 'unrecognized' ): 'CPF item of an unrecognised type: by design parses the remainder of the CPF into .input (no limit is given to it)',
+}
+
+# machines that are themselves unbounded by design and are only ever instantiated under a limit / run on a finite buffer
+TAIL_OK = {
+    'typed_data(USINT)': 'stand-alone typed_data: every in-repo instantiation passes limit= or is the tail of a limited region (checked per use)',
+    'typed_data(.type)': 'as above',
+    'STRUCT': 'raw payload to the end of the limited region',
+}
+
+
+@rule( 'G-BOUND', props=( 'C10', 'C08' ), floor=14 )
+def g_bound( ctx ):
+    """every unbounded consumer (loop, '.*' string, raw-to-end payload) lies inside a limit naming a parsed length (or a constant), or is the tail of a machine run on a finite buffer"""
+    res = Result( 'G-BOUND' )
+    g = grammar_of( ctx )
+    cons = consumption_of( ctx )
+    bounded = 0
+    seen = set()
+    roots = { '%s/%s' % ( r['cls'], r['name'] ): r['machine'] for r in g.registrations if isinstance( r['machine'], Node ) }
+    for label in RUN_ROOTS:
+        if label in g.machines:
+            roots[label] = g.machines[label]
+    for label, root in sorted( roots.items() ):
+        src = src_of( ctx, root )
+        short = label.split( '/' )[-1]
+        for n, kind, chain in unbounded_consumers( g, cons, root ):
+            if ( n.site[0], n.name ) in EXEMPT_CONSUMERS:
+                nt = 'exempt: %s %s - %s' % ( n.name, kind, EXEMPT_CONSUMERS[( n.site[0], n.name )] )
+                if nt not in res.notes: res.note( nt )
+                continue
+            key = ( n.site, kind, tuple( d.site for d in chain if d.kw.get( 'limit' ) is not None ))
+            by, lim = bound_of( n, chain )
+            if by is not None:
+                bounded += 1
+                if key not in seen:
+                    seen.add( key )
+                    lt = lim if isinstance( lim, ( str, int )) else ( 'callable ' + getattr( getattr( lim, 'node', None ), 'name', 'lambda' ))
+                    res.ok( src_of( ctx, n.site ), L( n.site ), '%s bounded by limit=%s of %r' % ( kind, lt, by.name ))
+                continue
+            # unbounded within its machine: acceptable only in tail position of a machine whose root is the whole (finite) buffer
+            if label in TAIL_OK:
+                continue
+            if tail_position( g, root, n, chain ):
+                if key not in seen:
+                    seen.add( key )
+                    res.ok( src_of( ctx, n.site ), L( n.site ), '%s: %s is the tail of the machine (consumes the rest of a finite buffer)' % ( short, kind ), nontrivial=False )
+            else:
+                res.bad( src_of( ctx, n.site ), L( n.site ), '%s: %s has no enclosing limit' % ( short, kind ),
+                         'it can consume past its element into whatever follows (a corrupt inner length runs past the frame)', func=label )
+    if bounded < 14:
+        raise AnalysisError( 'G-BOUND: only %d bounded regions found (floor 14)' % bounded )
+    return res
+
+
+def tail_position( g, root, n, chain ):
+    """nothing that consumes can follow n: at every level from n outwards, every successor path consumes 0 and enclosing dfas do not repeat"""
+    cons = Consumption( g )
+    def followers_consume( node ):
+        seen = set(); todo = [ t for s, t, d in g.edges_of( node ) if t is not None ]
+        while todo:
+            t = todo.pop()
+            if t.id in seen or t.id == node.id:
+                continue
+            seen.add( t.id )
+            if cons.node( t )[1] > 0:
+                return True
+            todo += [ x for s, x, d in g.edges_of( t ) if x is not None ]
+        return False
+    # members of a loop: successors inside the loop are the loop itself; look at exits only -- approximate by checking all successors not in a cycle with n
+    level_nodes = [ n ] + list( reversed( chain ))
+    for k, node in enumerate( level_nodes ):
+        if k > 0 and node.kw.get( 'repeat' ) is not None:
+            return False
+        if k > 0 or True:
+            # successors at this level (skip the loop's own members)
+            if _exits_consume( g, cons, node ):
+                return False
+    return True
+
+
+def _exits_consume( g, cons, node ):
+    # nodes reachable from `node` at its level
+    reach = g.nodes( node, into_sub=False )
+    # those that can reach `node` back are part of its loop
+    def reaches( a, b ):
+        return any( x.id == b.id for x in g.nodes( a, into_sub=False )[1:] ) if a.id != b.id else True
+    for t in reach[1:]:
+        if reaches( t, node ):
+            continue
+        if cons.node( t )[1] > 0:
+            return True
+    return False
